@@ -943,7 +943,8 @@ class Gen:
         n = r.choice([1, 2, 2, 3])
         idx = r.sample(range(len(SKS)), n)
         if r.random() < 0.7:
-            js = [(k % 3) for k in range(r.randrange(3), r.randrange(3) + n)]
+            j0 = r.randrange(3)
+            js = [(k % 3) for k in range(j0, j0 + n)]
             if suite == "G2Basic" and r.random() < 0.8:
                 js = r.sample(range(3), min(n, 3))
                 idx = idx[:len(js)]
@@ -951,7 +952,7 @@ class Gen:
             js = [r.randrange(3) for _ in idx]
         pks = [self.pool_pk(i) for i in idx]
         sigs = [self.pool_sig(suite, i, j) for i, j in zip(idx, js)]
-        if any(x is None for x in pks + sigs):
+        if not sigs or any(x is None for x in pks + sigs):
             return [{"list": []}, {"list": []}, lit(B(b""))], {}
         agg = self.gold_value(["c", "suite." + suite, "Aggregate"], [["list", sigs]])
         if agg is None:
